@@ -74,7 +74,7 @@ def gen_case(rng, quick=True, drivers=False):
                 wf_position=[rs(dyadic(rng, -2, 2, 1)) for _ in range(n)], wf_samples=rng.choice([0, 0, 2]),
                 cl_sampling_ic=rng.random() < 0.5,
                 okl_mode=rng.choice(["linear_resample", "nonlinear_resample", "linear_sample"]),
-                cl_geovi=rng.random() < 0.4)
+                cl_geovi=rng.random() < 0.4, quick=bool(quick))
 
 
 def _np(c):
@@ -259,9 +259,9 @@ def _solvers(c):
     if c["noise"] != "full":
         s.append("cl_curvature")
     if c["drivers"]:
-        s += ["jax_map", "jax_mgvi"]
+        s += ["jax_mgvi"] + ([] if c.get("quick") else ["jax_map"])
         if c["noise"] != "full":
-            s += ["cl_mgvi", "cl_map"]
+            s += ["cl_mgvi"] + ([] if c.get("quick") else ["cl_map"])
     return s
 
 
@@ -311,10 +311,25 @@ def shrink(case):
         yield dict(case, n=n - 1, R=[r[:-1] for r in case["R"]])
 
 
+def _gen_where(rng, quick, pred, **kw):
+    for _ in range(200):
+        c = gen_case(rng, quick, **kw)
+        if pred(c):
+            return c
+    return c
+
+
 def run(ctx):
     rng = ctx.rng
-    cases = [gen_case(rng, ctx.quick) for _ in range(ctx.n(10, 200))]
+    cases = [gen_case(rng, ctx.quick) for _ in range(ctx.n(6, 200))]
     cases += [gen_case(rng, ctx.quick, drivers=True) for _ in range(ctx.n(1, 12))]
+    # directed: every documented option combination that changes a code path is present in every run
+    nz = lambda c: any(fr(x) != 0 for r in c["R"] for x in r)
+    cases.append(_gen_where(rng, ctx.quick, lambda c: nz(c) and not c["wf_linear"] and c["wf_pos"] == "nonzero"
+                            and not any(fr(x) != 0 for x in c["offset"])))
+    cases.append(_gen_where(rng, ctx.quick, lambda c: nz(c) and any(fr(x) != 0 for x in c["offset"]) and c["wf_samples"] > 0))
+    cases.append(_gen_where(rng, ctx.quick, lambda c: nz(c) and c["wf_linear"] and c["wf_pos"] == "none" and c["rank"] != "full"))
+    cases.append(_gen_where(rng, ctx.quick, lambda c: nz(c) and c["noise"] != "full" and not c["cl_sampling_ic"]))
     outs = ctx.model(DRIVER, [dict(op="wiener", R=c["R"], N=c["N"], n=c["n"],
                                    d=[rs(fr(a) - fr(b)) for a, b in zip(c["d"], c["offset"])]) for c in cases])
     for c, m in zip(cases, outs):
